@@ -480,6 +480,12 @@ func hostileCases(tier string) []hostile {
 	if tier == "thorough" {
 		hs = append(hs, hostile{kase{strict: false, entry: 'G', shallow: true, input: "S1F1\n" + strings.Repeat("<L ", 6000000), class: "nest/6000000"},
 			limits{vKB: 8 << 20, wall: 600 * time.Second}})
+		// one byte more than secs2.MaxByteSize in an ASCII / JIS-8 item: the message constructor
+		// must refuse (a plain error, not a *ParseError); one byte less must pass
+		big := strings.Repeat("x", 1<<24)
+		hs = append(hs, hostile{kase{strict: false, entry: 'P', shallow: true, input: "S1F1 <A[16777216] \"" + big + "\">.", class: "big/A-over"}, hintLim})
+		hs = append(hs, hostile{kase{strict: true, entry: 'M', shallow: true, input: "S1F1 <A \"" + big[1:] + "\">.", class: "big/A-max-strict"}, hintLim})
+		hs = append(hs, hostile{kase{strict: false, entry: 'P', shallow: true, input: "S1F1 <J \"" + big + "\">.", class: "big/J-over"}, hintLim})
 	}
 	return hs
 }
